@@ -121,28 +121,27 @@ func (m *Model) RunPathAPI(s *Sink, rule string) {
 					} else {
 						s.Violation(rule, key, m.InstrPos(mu), "a file is registered as a template without a dominating strings.HasSuffix(path, TemplateExt) test (and a not-a-directory test)")
 					}
-					// the key comes from a name function that uses Rel and TrimSuffix
-					if kc, ok := mu.Key.(*ssa.Call); ok && kc.Call.StaticCallee() != nil && m.InModule(kc.Call.StaticCallee()) {
-						nf := kc.Call.StaticCallee()
-						hasRel, hasTrim := false, false
-						for _, nb := range nf.Blocks {
-							for _, nin := range nb.Instrs {
-								if c, ok := nin.(*ssa.Call); ok && c.Call.StaticCallee() != nil {
-									switch fnFullName(c.Call.StaticCallee()) {
-									case "path/filepath.Rel":
-										hasRel = derivesFromField(c.Call.Args[0], ".TemplateDir", 0)
-									case "strings.TrimSuffix":
-										hasTrim = derivesFromField(c.Call.Args[1], ".TemplateExt", 0)
-									}
-								}
+					// the key is derived (in the callback or a helper it calls) with filepath.Rel by the directory and a suffix removal of the extension
+					hasRel, hasTrim := false, false
+					m.walkInlined(cl, 2, func(nin ssa.Instruction, _ func(ssa.Value) ssa.Value, _ int) {
+						if c, ok := nin.(*ssa.Call); ok && c.Call.StaticCallee() != nil {
+							switch fnFullName(c.Call.StaticCallee()) {
+							case "path/filepath.Rel":
+								hasRel = hasRel || derivesFromField(c.Call.Args[0], ".TemplateDir", 0)
+							case "strings.TrimSuffix", "strings.CutSuffix":
+								hasTrim = hasTrim || derivesFromField(c.Call.Args[1], ".TemplateExt", 0)
 							}
 						}
-						k2 := fnKey(nf) + "|name is the path relative to the directory minus the extension"
-						if hasRel && hasTrim {
-							s.OK(rule, k2, m.Pos(nf.Pos()), "filepath.Rel(TemplateDir, path) and strings.TrimSuffix(_, TemplateExt)")
-						} else {
-							s.Violation(rule, k2, m.Pos(nf.Pos()), "%s does not derive the template name with filepath.Rel(TemplateDir, path) and strings.TrimSuffix(name, TemplateExt)", fnKey(nf))
-						}
+					})
+					nameOf := cl
+					if kc, ok := mu.Key.(*ssa.Call); ok && kc.Call.StaticCallee() != nil && m.InModule(kc.Call.StaticCallee()) {
+						nameOf = kc.Call.StaticCallee()
+					}
+					k2 := fnKey(nameOf) + "|name is the path relative to the directory minus the extension"
+					if hasRel && hasTrim {
+						s.OK(rule, k2, m.Pos(nameOf.Pos()), "filepath.Rel(TemplateDir, path) and a suffix removal of TemplateExt")
+					} else {
+						s.Violation(rule, k2, m.Pos(nameOf.Pos()), "%s does not derive the template name with filepath.Rel(TemplateDir, path) and strings.TrimSuffix/CutSuffix(name, TemplateExt)", fnKey(nameOf))
 					}
 				}
 			}
